@@ -3791,6 +3791,12 @@ func runC17(c *Ctx) {
 				n++
 				sliceForm[fa.X] = true
 				ok = nOff == 1 && sameValueAt(sl.Low, off.Val)
+				// Text = s[tok.Offset:...]: the lower bound is read from the Offset field of the very same token object
+				if ld, isLd := sl.Low.(*ssa.UnOp); isLd && ld.Op == token.MUL {
+					if fo, isFO := ld.X.(*ssa.FieldAddr); isFO && core.FieldName(fo) == "Offset" && fo.X == fa.X {
+						ok = true
+					}
+				}
 				c.R.Check(ok, "R17.1", "Tokenize: a token whose Text is a substring s[a:b] of the input has Offset a", p.Pos(st.Pos()), "Text: s[a:b], Offset: a (the same value)", "the token's Text is cut from the input at a position other than its Offset")
 				// b is a scan position (a rune boundary the loop has reached) or the end of the input
 				var isBoundary func(v ssa.Value, depth int) bool
